@@ -15,6 +15,7 @@ import (
 	"strconv"
 	"strings"
 	stdsync "sync"
+	"sync/atomic"
 	"testing"
 	"time"
 
@@ -238,14 +239,25 @@ func TestRace(t *testing.T) {
 	}
 	scs := scenarios(res)
 	var wg stdsync.WaitGroup
+	var hung atomic.Bool
 	next := make(chan string)
 	for k := 0; k < 8; k++ {
 		wg.Add(1)
 		go func() {
 			defer wg.Done()
 			for n := range next {
-				for i := 0; i < iters; i++ {
-					body(parse(n), &observation{})
+				for i := 0; i < iters && !hung.Load(); i++ {
+					done := make(chan struct{})
+					go func() { body(parse(n), &observation{}); close(done) }()
+					select {
+					case <-done:
+					case <-time.After(20 * time.Second):
+						// free-running, a deadlock is a hang: deadlocks are the business of the exploration
+						// stage, the audit only gives up
+						if !hung.Swap(true) {
+							res.Cap("race audit abandoned: a free-running run of %s did not end within 20 s (deadlocks are judged by the exploration stage)", n)
+						}
+					}
 				}
 			}
 		}()
